@@ -373,7 +373,8 @@ theorem handle_index {m : Mat} (hk : HOk m) (st : Step) :
     | stream => right; right; exact ⟨x, rfl, rfl, rfl⟩
     | resume => right; right; exact ⟨x, rfl, rfl, rfl⟩
 
-theorem RInv.next {y : Sys} {pc : Cat} (h : RInv y pc) (hi : Inv y) (id : Nat) : RInv (next y id).1 pc := by
+theorem RInv.next {y : Sys} {pc : Cat} (h : RInv y pc) (hi : Inv y) (id : Nat)
+    (hz : ∀ c, getClient y id = some c → c.authz = .all) : RInv (next y id).1 pc := by
   unfold CV.Stream.next CV.Stream.nextWith
   cases hg : getClient y id with
   | none => exact h
@@ -411,7 +412,7 @@ theorem RInv.next {y : Sys} {pc : Cat} (h : RInv y pc) (hi : Inv y) (id : Nat) :
       cases hin : c.inbox with
       | nil => exact h
       | cons st rest =>
-        simp only
+        simp only [hz c hg, visible_all]
         have hs := hi.sim c hc hsub
         rw [hin] at hs
         obtain ⟨hk0, hex, -⟩ := hs
@@ -447,8 +448,8 @@ theorem RInv.expire {y : Sys} {pc : Cat} (h : RInv y pc) : RInv (expire y) pc :=
   unfold CV.Stream.expire
   exact ⟨h.chain, h.qsort, h.qle, h.qpos, h.lbuf, h.lpost, h.lq, h.cidx, h.p2, h.pend, (by intro e he; cases he)⟩
 
-theorem RInv.addClient {y : Sys} {pc : Cat} (h : RInv y pc) (id : Nat) (k : Key) (t : String) (r : Bool) :
-    RInv (addClient y id k t r) pc := by
+theorem RInv.addClient {y : Sys} {pc : Cat} (h : RInv y pc) (id : Nat) (k : Key) (t : String) (r : Bool) (a : Authz) :
+    RInv (addClient y id k t r a) pc := by
   unfold CV.Stream.addClient
   cases hg : getClient y id with
   | some c => simpa using h
